@@ -25,6 +25,10 @@ structure Inv (env : Env) : Prop where
   leafT : ∃ p, lookup .T env.table = some p
   leafF : ∃ p, lookup .F env.table = some p
   good : ∀ k p, lookup k env.table = some p → Good env.table p
+  /-- every stored node was allocated before `next` … -/
+  bound : ∀ k p, lookup k env.table = some p → p.addr < env.next
+  /-- … and distinct structures live at distinct addresses -/
+  addrInj : ∀ k p k' p', lookup k env.table = some p → lookup k' env.table = some p' → p.addr = p'.addr → k = k'
 
 /-- the table only grows: what was stored stays stored, under the same pointer -/
 def Ext (e e' : Env) : Prop := ∀ k p, lookup k e.table = some p → lookup k e'.table = some p
@@ -50,7 +54,21 @@ theorem Good.right {tbl : List (BDD × PBDD)} {p : Nat} {t f : PBDD} {v : Nat}
   fun s hs => h s (by simp [subtrees, hs])
 
 theorem inv_new : Inv Env.new := by
-  refine ⟨?_, ⟨.T 0, by simp [Env.new, lookup]⟩, ⟨.F 1, by simp [Env.new, lookup]⟩, ?_⟩
+  have two : ∀ k p, lookup k Env.new.table = some p → (k = .T ∧ p = .T 0) ∨ (k = .F ∧ p = .F 1) := by
+    intro k p h
+    simp only [Env.new, lookup] at h
+    split at h
+    · cases h; rename_i e; exact Or.inl ⟨e.symm, rfl⟩
+    · split at h
+      · cases h; rename_i e; exact Or.inr ⟨e.symm, rfl⟩
+      · simp at h
+  refine ⟨?_, ⟨.T 0, by simp [Env.new, lookup]⟩, ⟨.F 1, by simp [Env.new, lookup]⟩, ?_, ?_, ?_⟩
+  rotate_left 2
+  · intro k p h
+    rcases two k p h with ⟨_, rfl⟩ | ⟨_, rfl⟩ <;> simp [PBDD.addr, Env.new]
+  · intro k p k' p' h h' e
+    rcases two k p h with ⟨rfl, rfl⟩ | ⟨rfl, rfl⟩ <;> rcases two k' p' h' with ⟨rfl, rfl⟩ | ⟨rfl, rfl⟩ <;>
+      simp [PBDD.addr] at e ⊢
   · intro k p h
     simp only [Env.new, lookup] at h
     split at h
@@ -96,14 +114,14 @@ theorem mkChoiceM_post (t : PBDD) (s : Nat) (f : PBDD) (env : Env) (h : Inv env)
     have hl := ht.lookup_self
     rw [heq] at hl
     simp only [hl]
-    refine ⟨⟨h.keys, h.leafT, h.leafF, h.good⟩, fun _ _ hh => hh, ?_, ?_⟩
+    refine ⟨⟨h.keys, h.leafT, h.leafF, h.good, fun k p hk => Nat.lt_succ_of_lt (h.bound k p hk), h.addrInj⟩, fun _ _ hh => hh, ?_, ?_⟩
     · exact ht
     · simp [BDD.mk, heq]
   · simp only [heq, if_false]
     cases hl : lookup (PBDD.node env.next t s f).erase env.table with
     | some stored =>
       simp only []
-      refine ⟨⟨h.keys, h.leafT, h.leafF, h.good⟩, fun _ _ hh => hh, h.good _ _ hl, ?_⟩
+      refine ⟨⟨h.keys, h.leafT, h.leafF, h.good, fun k p hk => Nat.lt_succ_of_lt (h.bound k p hk), h.addrInj⟩, fun _ _ hh => hh, h.good _ _ hl, ?_⟩
       rw [h.keys _ _ hl]; simp [PBDD.erase, BDD.mk, heq]
     | none =>
       simp only []
@@ -125,7 +143,7 @@ theorem mkChoiceM_post (t : PBDD) (s : Nat) (f : PBDD) (env : Env) (h : Inv env)
         · simp [lookup]
         · exact hgood_old t ht s' hs'
         · exact hgood_old f hf s' hs'
-      refine ⟨⟨?_, ?_, ?_, ?_⟩, hext, hgood_new, ?_⟩
+      refine ⟨⟨?_, ?_, ?_, ?_, ?_, ?_⟩, hext, hgood_new, ?_⟩
       · intro k p hk
         simp only [lookup] at hk
         split at hk
@@ -138,6 +156,28 @@ theorem mkChoiceM_post (t : PBDD) (s : Nat) (f : PBDD) (env : Env) (h : Inv env)
         split at hk
         · cases hk; exact hgood_new
         · exact hgood_old p (h.good k p hk)
+      · -- addresses stay below the allocation counter
+        intro k p hk
+        simp only [lookup] at hk
+        split at hk
+        · cases hk; simp [PBDD.addr]
+        · exact Nat.lt_succ_of_lt (h.bound k p hk)
+      · -- the new node's address is fresh
+        intro k p k' p' hk hk' e
+        simp only [lookup] at hk hk'
+        split at hk
+        · cases hk
+          split at hk'
+          · rename_i e1 e2; rw [← e1, ← e2]
+          · have hb := h.bound k' p' hk'
+            have e' : env.next = p'.addr := e
+            omega
+        · split at hk'
+          · cases hk'
+            have hb := h.bound k p hk
+            have e' : p.addr = env.next := e
+            omega
+          · exact h.addrInj k p k' p' hk hk' e
       · simp [PBDD.erase, BDD.mk, heq]
 
 /-- sequencing: run `m`, then a continuation that needs the result and everything that was
